@@ -89,10 +89,20 @@ Proof.
   - intros h'' Hh. apply In_set_nth in Hh as [->|Hh]; [|now apply I4]. unfold h'. cbn [ho_fmt]. apply I4. eapply nth_error_In. exact Eh.
 Qed.
 
+Lemma create_sep w f vl evl d recs : sep w -> sep (create w f vl evl d recs).
+Proof.
+  intros (I1 & I2 & I3 & I4). unfold create, sep. cbn [dw_fmts dw_hdrs dw_objs].
+  rewrite !map_app, !app_length. cbn [map lo_hdr ho_fmt length]. repeat split.
+  - apply NoDup_snoc; [exact I1|]. intros Hi. apply in_map_iff in Hi as (o' & E & Ho'). specialize (I2 o' Ho'). lia.
+  - intros o' Ho'. apply in_app_or in Ho' as [Ho'|[<-|[]]]; [specialize (I2 o' Ho'); lia|cbn [lo_hdr]; lia].
+  - apply NoDup_snoc; [exact I3|]. intros Hi. apply in_map_iff in Hi as (h' & E & Hh'). specialize (I4 h' Hh'). lia.
+  - intros h' Hh'. apply in_app_or in Hh' as [Hh'|[<-|[]]]; [specialize (I4 h' Hh'); lia|cbn [ho_fmt]; lia].
+Qed.
+
 Theorem dstep_sep : forall ap w op, sep w -> sep (fst (dstep ap w op)).
 Proof.
-  intros ap w op H. destruct op as [i sel|i|i e|i]; cbn [dstep fst];
-    [apply derive_sep|apply derive_sep|apply edit_sep|]; exact H.
+  intros ap w op H. destruct op as [i sel|i|i e|i|f0 vl evl d recs]; cbn [dstep fst];
+    [apply derive_sep|apply derive_sep|apply edit_sep| |apply create_sep]; exact H.
 Qed.
 Print Assumptions dstep_sep.
 
@@ -177,16 +187,25 @@ Proof.
   now rewrite Ev.
 Qed.
 
+Lemma create_frame w f vl evl d recs j v : view w j = Some v -> view (create w f vl evl d recs) j = Some v.
+Proof.
+  intros Hv. destruct (view_parts w j v Hv) as (oj & hj & Eo & Eh & Ed & Ev).
+  unfold create, view. cbn [dw_fmts dw_hdrs dw_objs].
+  rewrite (nth_error_app_Some _ _ _ _ Eo), (nth_error_app_Some _ _ _ _ Eh), (nth_error_app_Some _ _ _ _ Ed).
+  now rewrite Ev.
+Qed.
+
 (* C01-r4-1's statement: whatever is done to a selection (or to any other LasData), the object it was taken from is
    what it was *)
 Theorem dstep_frame : forall ap w op j v, sep w -> target op <> Some j ->
   view w j = Some v -> view (fst (dstep ap w op)) j = Some v.
 Proof.
-  intros ap w op j v Hs Ht Hv. destruct op as [i sel|i|i e|i]; cbn [dstep fst].
+  intros ap w op j v Hs Ht Hv. destruct op as [i sel|i|i e|i|f0 vl evl d recs]; cbn [dstep fst].
   - now apply derive_frame.
   - now apply derive_frame.
   - apply edit_frame; [exact Hs| |exact Hv]. intros ->. now apply Ht.
   - exact Hv.
+  - now apply create_frame.
 Qed.
 Print Assumptions dstep_frame.
 
@@ -223,6 +242,36 @@ Proof.
   rewrite Ev. reflexivity.
 Qed.
 Print Assumptions derived_object_is_a_copy.
+
+(* round 7: a LasData made while others are live (laspy.create(), LasData(LasHeader()), laspy.read) holds exactly what it was made with ... *)
+Theorem created_object_is_as_given : forall w f vl evl d recs,
+  view (create w f vl evl d recs) (length (dw_objs w)) = Some (mkDV f vl evl d recs).
+Proof.
+  intros. unfold create, view. cbn [dw_fmts dw_hdrs dw_objs].
+  rewrite nth_error_app2, Nat.sub_diag by lia. cbn [nth_error lo_hdr lo_recs].
+  rewrite nth_error_app2, Nat.sub_diag by lia. cbn [nth_error ho_fmt ho_fields ho_vlrs ho_evlrs].
+  rewrite nth_error_app2, Nat.sub_diag by lia. cbn [nth_error]. reflexivity.
+Qed.
+Print Assumptions created_object_is_as_given.
+
+Theorem world_of_is_create : forall f vl evl d recs, world_of f vl evl d recs = create (mkDW [] [] []) f vl evl d recs.
+Proof. reflexivity. Qed.
+Print Assumptions world_of_is_create.
+
+(* ... and keeps writing the file of exactly that, whatever is made and done afterwards that is not an operation on itself: a second
+   cloud made the same way (same defaults), that cloud's header edited through any setter, further clouds made and derived *)
+Theorem created_cloud_keeps_its_file : forall ap w f vl evl d recs ops, sep w ->
+  (forall op, In op ops -> target op <> Some (length (dw_objs w))) ->
+  write_obj ap (fst (drun ap (create w f vl evl d recs) ops)) (length (dw_objs w)) = write_view ap (mkDV f vl evl d recs).
+Proof.
+  intros ap w f vl evl d recs ops Hs Ht.
+  rewrite (write_unaffected_by_other_objects ap ops (create w f vl evl d recs) (length (dw_objs w)) (mkDV f vl evl d recs)).
+  - unfold write_obj. now rewrite created_object_is_as_given.
+  - now apply create_sep.
+  - exact Ht.
+  - apply created_object_is_as_given.
+Qed.
+Print Assumptions created_cloud_keeps_its_file.
 
 (* the file a LasData writes is the one-shot file of what it refers to (so the round trip theorems of C01 apply to it) *)
 Theorem write_is_file_of : forall ap w j v, view w j = Some v ->
